@@ -1,6 +1,7 @@
 package props
 
 import (
+	"bytes"
 	"errors"
 	"fmt"
 	"os"
@@ -13,6 +14,7 @@ import (
 	"github.com/anishathalye/porcupine"
 	bolt "go.etcd.io/bbolt"
 	berrors "go.etcd.io/bbolt/errors"
+	"go.etcd.io/bbolt/xverif/dec"
 	"go.etcd.io/bbolt/xverif/model"
 	"go.etcd.io/bbolt/xverif/sim"
 	"go.etcd.io/bbolt/xverif/work"
@@ -43,6 +45,10 @@ func genClients(ts *sim.Tapes, cfg work.Config, prop, tier string) (prelude *wor
 	nr := 1 + t.Intn(3)
 	if prop == "C02" || prop == "C10" {
 		nr = 1 + t.Intn(5)
+		nw = 1 + t.Intn(2)
+	}
+	if prop == "C14" {
+		nr = t.Intn(2)
 		nw = 1 + t.Intn(2)
 	}
 	if prop == "C03" {
@@ -80,6 +86,19 @@ func genClients(ts *sim.Tapes, cfg work.Config, prop, tier string) (prelude *wor
 			steps = append(steps, work.Step{Kind: "hold", Reader: 1 + t.Intn(3)})
 		}
 		clients = append(clients, steps)
+	}
+	if prop == "C14" {
+		nb := 1 + t.Intn(2)
+		for b := 0; b < nb; b++ {
+			var steps []work.Step
+			n := 1 + t.Intn(2)
+			for i := 0; i < n; i++ {
+				steps = append(steps, work.Step{Kind: "pause", Reader: t.Intn(25)})
+				// Reader encodes the variant: 0 WriteTo, 1 CopyFile, 2 WriteTo with WriteFlag; +10: hold the tx for a while before copying
+				steps = append(steps, work.Step{Kind: "backup", Reader: t.Pick(3, 2, 1) + 10*t.Pick(2, 1)})
+			}
+			clients = append(clients, steps)
+		}
 	}
 	if prop == "C03" {
 		if t.Chance(1, 2) {
@@ -319,6 +338,8 @@ func (ss schedsim) client(m *mtWorld, ci int, steps []work.Step, t *sim.Task) {
 			m.probes["close-under-load"]++
 		case "hold":
 			ss.reader(m, e, st, t)
+		case "backup":
+			ss.backup(m, e, ci, si, st, t)
 		case "tx":
 			if st.Tx.Mode == "view" || st.Tx.Mode == "ro" {
 				ss.reader(m, e, &work.Step{Kind: "hold", Reader: 1, Tx: st.Tx}, t)
@@ -514,6 +535,140 @@ func (ss schedsim) reader(m *mtWorld, e *work.Exec, st *work.Step, t *sim.Task) 
 	}
 }
 
+// yieldWriter is the io.Writer handed to Tx.WriteTo: it yields to the
+// scheduler on every Write call so that writers commit during the copy.
+type yieldWriter struct {
+	buf    bytes.Buffer
+	t      *sim.Task
+	s      *sim.Sched
+	writes int
+}
+
+func (w *yieldWriter) Write(p []byte) (int, error) {
+	w.writes++
+	if !w.s.Draining {
+		w.t.Pause("backup.write")
+	}
+	return w.buf.Write(p)
+}
+
+func (ss schedsim) backup(m *mtWorld, e *work.Exec, ci, si int, st *work.Step, t *sim.Task) {
+	fail := func(class, f string, a ...any) { m.fail("C14", class, f, a...) }
+	lastRetAtInvoke := m.lastRet
+	tx, err := m.db.Begin(false)
+	if m.notOpenOK(err) {
+		return
+	}
+	if err != nil {
+		fail("begin-error", "Begin(false): %v", err)
+		return
+	}
+	m.openTx++
+	id := tx.ID()
+	want := m.versions[id]
+	if want == nil {
+		want = m.inflight[id]
+	}
+	if want == nil || id < lastRetAtInvoke {
+		fail("unknown-version", "backup transaction sees txid %d (newest returned commit %d)", id, lastRetAtInvoke)
+	}
+	variant := st.Reader % 10
+	if st.Reader >= 10 && !m.s.Draining {
+		for i := 0; i < 12; i++ {
+			t.Pause("backup.age") // let writers get ahead: an old snapshot is copied
+		}
+	}
+	size := tx.Size()
+	var img []byte
+	dst := filepath.Join(filepath.Dir(m.db.Path()), fmt.Sprintf("backup-%d-%d", ci, si))
+	os.Remove(dst)
+	defer os.Remove(dst)
+	switch variant {
+	case 1:
+		if err := tx.CopyFile(dst, 0600); err != nil {
+			fail("copy-error", "CopyFile: %v", err)
+		}
+		img, _ = os.ReadFile(dst)
+		m.probes["backup-copyfile"]++
+	default:
+		if variant == 2 {
+			tx.WriteFlag = os.O_SYNC
+			m.probes["backup-writeflag"]++
+		}
+		yw := &yieldWriter{t: t, s: m.s}
+		n, err := tx.WriteTo(yw)
+		if err != nil {
+			fail("copy-error", "WriteTo: %v", err)
+		}
+		img = yw.buf.Bytes()
+		if n != int64(len(img)) {
+			fail("size", "WriteTo returned %d but wrote %d bytes", n, len(img))
+		}
+		m.probes["backup-writeto"]++
+		m.probes["backup-write-calls"] += yw.writes
+	}
+	if m.lastRet > id {
+		m.probes["backup-of-old-snapshot"]++
+	}
+	m.openTx--
+	if rerr := tx.Rollback(); rerr != nil {
+		fail("rollback-error", "Rollback: %v", rerr)
+	}
+	if len(m.viol) > 0 || want == nil {
+		return
+	}
+	if int64(len(img)) != size {
+		fail("size", "the copy has %d bytes, Tx.Size() reported %d", len(img), size)
+		return
+	}
+	// the independent decoder's verdict on the copy
+	im, derr := dec.Load(img)
+	if derr != nil {
+		fail("copy-undecodable", "%v", derr)
+		return
+	}
+	wi, ok := im.Winner()
+	if !ok {
+		fail("copy-undecodable", "no valid meta in the copy")
+		return
+	}
+	res := im.Decode(wi)
+	if res.Fatal != "" || !res.Clean() {
+		fail("copy-accounting", "pages of the copy are not all accounted for: %s", res.ProblemString())
+		return
+	}
+	if d := model.Diff(res.Root, want); d != "" {
+		fail("copy-content", "the copy of txid %d decodes to different content: %s", id, d)
+		return
+	}
+	// and the real code's
+	if variant != 1 {
+		if err := os.WriteFile(dst, img, 0600); err != nil {
+			return
+		}
+	}
+	cdb, oerr := bolt.Open(dst, 0600, &bolt.Options{})
+	if oerr != nil {
+		fail("copy-open", "the copy does not open: %v", oerr)
+		return
+	}
+	_ = cdb.View(func(ctx *bolt.Tx) error {
+		got := e.Dump(ctx)
+		if d := model.Diff(got, want); d != "" {
+			fail("copy-content", "the opened copy of txid %d differs from the snapshot: %s", id, d)
+		}
+		for cerr := range ctx.Check() {
+			fail("copy-check", "Tx.Check on the copy: %v", cerr)
+			break
+		}
+		return nil
+	})
+	if cerr := cdb.Close(); cerr != nil {
+		fail("copy-close", "%v", cerr)
+	}
+	m.probes["backups-verified"]++
+}
+
 func (ss schedsim) Shrinks(c *Case) []*Case {
 	var out []*Case
 	// drop whole clients, then steps of clients, then ops; the sched tape is
@@ -577,6 +732,9 @@ func init() {
 	register(&Info{Prop: "C02", Engine: ss, Level: "exploration", QuickS: 60, ThoroughS: 900, RealStub: real,
 		Rule:   "one evaluation = one seeded multi-task run: 1-2 writer tasks and 1-5 reader tasks of different ages on one DB, pre-empted at hook points by tape decisions; each reader dumps its whole view in chunks (yielding inside ForEach) repeatedly while writers commit, roll back, reuse pages, grow and remap, and every dump must equal the model version of the reader's txid; the txid must not be older than the newest commit that had returned when Begin was invoked. distinct_nontrivial = distinct schedule fingerprints (hash of the (task, hook point) decision sequence) among runs with at least one commit and one pre-emption",
 		Assume: []string{"interleavings below hook granularity are not explored", "Go memory-model races are invisible under token scheduling"}})
+	register(&Info{Prop: "C14", Engine: ss, Level: "exploration", QuickS: 60, ThoroughS: 900, RealStub: real,
+		Rule:   "one evaluation = one seeded multi-task run with 1-2 writer tasks and 1-2 backup tasks: a backup begins a read transaction at a tape-chosen moment (optionally ages it while writers commit), copies it with WriteTo into a writer that yields to the scheduler on every Write call (or CopyFile, or WriteTo with WriteFlag) while writers keep committing, reusing pages, growing and remapping; the copy must have exactly Tx.Size() bytes, decode cleanly (all pages accounted for) to the model version of the backup's txid, open with the real code, dump equal and pass Tx.Check. distinct_nontrivial = distinct schedule fingerprints among runs with a commit and a pre-emption",
+		Assume: []string{"interleavings below hook granularity are not explored", "which meta slot wins in the copy is not asserted"}})
 	register(&Info{Prop: "C03", Engine: ss, Level: "exploration", QuickS: 60, ThoroughS: 900, RealStub: real,
 		Rule:   "one evaluation = one seeded multi-task run: 1-4 writer tasks (Update / Begin+Commit / rollback / failing / panicking bodies), readers, a Stats caller and sometimes a late Close; oracles: never two writer bodies at once, committed ids consecutive, every read of a writer equals the model built from its predecessors in id order plus its own writes, failed bodies leave no trace, porcupine linearizability of the (txid) history stamped with event sequence numbers, deadlock = no enabled task and no timer, Close returns only after open transactions finished. distinct_nontrivial as for C02",
 		Assume: []string{"interleavings below hook granularity are not explored", "race freedom is not decided by this arm (token scheduling orders everything)"}})
